@@ -804,7 +804,11 @@ impl<'a> LiveEvents<'a> {
 
             match raw {
                 Event::DocumentStart(_) => {
-                    // Found the start of the next document
+                    // Found the start of the next document. The skipped events bypassed the
+                    // budget enforcer, so tell it explicitly that a new document begins.
+                    if let Some(budget) = self.budget.as_mut() {
+                        budget.begin_document();
+                    }
                     self.reset_document_state();
                     self.produced_any_in_doc = false;
                     return true;
